@@ -114,9 +114,6 @@ package recordio
 //@ iface ByteReaderResetCount.Count
 //@   pure
 
-//@ func readRecordHeaderV4
-//@   assumed
-//@   modifies *
 
 //@ func (*FileReader).SkipNext
 //@   props C04
@@ -128,3 +125,73 @@ package recordio
 //@         callres(ByteReaderResetCount.Count, 0, 0) <= callres(ByteReaderResetCount.Count, 1, 0) && callres(ByteReaderResetCount.Count, 1, 0) < 1152921504606846976 ==>
 //@        arg0 == r.currentOffset + (callres(ByteReaderResetCount.Count, 1, 0) - callres(ByteReaderResetCount.Count, 0, 0)) +
 //@                (callres(readRecordHeaderV4, 0, 2) ? 0 : (r.header.compressor == nil ? callres(readRecordHeaderV4, 0, 0) : callres(readRecordHeaderV4, 0, 1))))
+
+// ---------------------------------------------------------------------------------------------------
+// C12: header parsing.  uvlen(x): number of bytes of the minimal uvarint encoding of x.
+
+//@ spec func uvlen(x Int) Int = x < 128 ? 1 : (x < 16384 ? 2 : (x < 2097152 ? 3 : (x < 268435456 ? 4 : (x < 34359738368 ? 5 : (x < 4398046511104 ? 6 :
+//@      (x < 562949953421312 ? 7 : (x < 72057594037927936 ? 8 : (x < 9223372036854775808 ? 9 : 10))))))))
+
+//@ func uvarintLen
+//@   props C12
+//@   ensures [minimal-length] r0 == uvlen(x)
+//@   modifies nothing
+//@   loop 0
+//@     invariant 1 <= n && n <= 10 && 0 <= x && uvlen(old(x)) == n - 1 + uvlen(x)
+
+//@ func NewCompressorForType
+//@   props C12
+//@   ensures [known-codes-accepted] 0 <= compType && compType <= 3 ==> r1 == nil
+//@   ensures [unknown-codes-rejected] (compType < 0 || compType > 3) ==> r1 != nil
+//@   ensures [none-has-no-compressor] r1 == nil ==> (compType == 0 <==> r0 == nil)
+//@   modifies nothing
+
+//@ func readFileHeaderFromBuffer
+//@   props C12
+//@   replay recordio_damage
+//@   exit [C12:accepts-exactly-supported-headers] r1 == nil <==> (len(buffer) == 8 &&
+//@        1 <= callres(littleEndian.Uint32, 0, 0) && callres(littleEndian.Uint32, 0, 0) <= 4 && callres(littleEndian.Uint32, 1, 0) <= 3)
+//@   exit [C12:header-fields] r1 == nil ==> r0 != nil && r0.fileVersion == callres(littleEndian.Uint32, 0, 0) && r0.compressionType == callres(littleEndian.Uint32, 1, 0)
+//@   exit [rejected-means-nil] r1 != nil ==> r0 == nil
+
+//@ func (*checksumByteReader).Count
+//@   props C12
+//@   ensures r0 == h.idx
+//@   modifies nothing
+
+//@ func readRecordHeaderV4
+//@   props C12 C04 C09
+//@   replay recordio_damage
+//@   exit [C12:magic-number-checked] err == nil ==> callres(binary.ReadUvarint, 0, 0) == 1246865
+//@   exit [C12:wrong-magic-is-the-magic-error] called(binary.ReadUvarint, 0) && callres(binary.ReadUvarint, 0, 1) == nil && callres(binary.ReadUvarint, 0, 0) != 1246865 ==> err == MagicNumberMismatchErr
+//@   exit [C12,C09:checksum-compared] err == nil ==> called(checksumByteReader.Checksum, 0) && callres(checksumByteReader.Checksum, 0, 1) == nil &&
+//@        callres(checksumByteReader.Checksum, 0, 0) == callres(binary.ReadUvarint, 3, 0)
+//@   exit [C12:checksum-field-minimally-encoded] err == nil && 0 <= callres(checksumByteReader.Count, 0, 0) && callres(checksumByteReader.Count, 0, 0) <= 64 &&
+//@        0 <= callres(checksumByteReader.Count, 1, 0) && callres(checksumByteReader.Count, 1, 0) <= 64 ==>
+//@        callres(checksumByteReader.Count, 1, 0) - callres(checksumByteReader.Count, 0, 0) == uvlen(callres(binary.ReadUvarint, 3, 0))
+//@   exit [C12:read-errors-propagate] (called(binary.ReadUvarint, 0) && callres(binary.ReadUvarint, 0, 1) != nil ==> err != nil) &&
+//@        (called(binary.ReadUvarint, 1) && callres(binary.ReadUvarint, 1, 1) != nil ==> err != nil) &&
+//@        (called(binary.ReadUvarint, 2) && callres(binary.ReadUvarint, 2, 1) != nil ==> err != nil) &&
+//@        (called(binary.ReadUvarint, 3) && callres(binary.ReadUvarint, 3, 1) != nil ==> err != nil) &&
+//@        (called(checksumByteReader.ReadByte, 0) && callres(checksumByteReader.ReadByte, 0, 1) != nil ==> err != nil)
+//@   exit [C12,C04:returns-the-decoded-fields] err == nil ==> payloadSizeUncompressed == callres(binary.ReadUvarint, 1, 0) &&
+//@        payloadSizeCompressed == callres(binary.ReadUvarint, 2, 0) && (recordNilBool <==> callres(checksumByteReader.ReadByte, 0, 0) == 1)
+
+//@ func (*MMapReader).ReadNextAt
+//@   props C12 C04 C09
+//@   replay recordio_damage
+//@   requires r.header != nil && r.mmapReader != nil && r.bufferPool != nil
+//@   exit [C12:payload-completely-read] r1 == nil && !isnil(r0) && called(readRecordHeaderV4, 0) ==>
+//@        called(ReaderAt.ReadAt, 1) && callres(ReaderAt.ReadAt, 1, 1) == nil && callres(ReaderAt.ReadAt, 1, 0) == expectedBytesRead
+//@   exit [C12:header-accepted-first] r1 == nil && called(readRecordHeaderV4, 0) ==> callres(readRecordHeaderV4, 0, 3) == nil
+//@   exit [C04:nil-record-stays-nil] r1 == nil && called(readRecordHeaderV4, 0) && callres(readRecordHeaderV4, 0, 2) ==> isnil(r0)
+//@   exit [C04:empty-is-not-nil] r1 == nil && called(readRecordHeaderV4, 0) && !callres(readRecordHeaderV4, 0, 2) ==> !isnil(r0)
+
+//@ func (*FileReader).ReadNext
+//@   props C12 C04
+//@   replay recordio_damage
+//@   requires r.file != nil && r.reader != nil && r.header != nil && r.recordHeaderByteReader != nil && r.bufferPool != nil
+//@   exit [C12:payload-completely-read] r1 == nil && !isnil(r0) && called(readRecordHeaderV4, 0) ==>
+//@        called(io.ReadFull, 0) && callres(io.ReadFull, 0, 1) == nil && callres(io.ReadFull, 0, 0) == expectedBytesRead
+//@   exit [C04:nil-record-stays-nil] r1 == nil && called(readRecordHeaderV4, 0) && callres(readRecordHeaderV4, 0, 3) == nil && callres(readRecordHeaderV4, 0, 2) ==> isnil(r0)
+//@   exit [C04:empty-is-not-nil] r1 == nil && called(readRecordHeaderV4, 0) && callres(readRecordHeaderV4, 0, 3) == nil && !callres(readRecordHeaderV4, 0, 2) ==> !isnil(r0)
